@@ -20,7 +20,9 @@ import (
 
 	"com.tuntun.rangers/node/src/common"
 	"com.tuntun.rangers/node/src/core"
+	"com.tuntun.rangers/node/src/middleware"
 	"com.tuntun.rangers/node/src/middleware/types"
+	"com.tuntun.rangers/node/src/service"
 	"com.tuntun.rangers/node/src/storage/account"
 	"com.tuntun.rangers/node/src/utility"
 	"com.tuntun.rangers/node/src/vm"
@@ -44,6 +46,9 @@ type TxSpec struct {
 type Input struct {
 	Name string   `json:"name"`
 	Txs  []TxSpec `json:"txs"`
+	// Seam "" = block executor on a prepared parent state; "verifyblock" = the exported
+	// BlockChain.VerifyBlock on the genesis parent with the transactions in the pool
+	Seam string `json:"seam,omitempty"`
 }
 
 type Case struct {
@@ -77,7 +82,7 @@ func setup() {
 	if err := node.Boot(node.ForksAllOn, true); err != nil {
 		panic(err)
 	}
-	common.SetBlockHeight(2)
+	common.SetBlockHeight(chainHeight)
 	st := node.LatestState()
 	ten, _ := utility.StrToBigInt("10")
 	st.SetBalance(common.HexToAddress(node.AcctA), ten)
@@ -198,6 +203,11 @@ type obsT struct {
 }
 
 var goroutineDelta int
+
+// chainHeight is the height of the (virtual) head while the block is executed; it decides
+// which proposals are active: 20 = every proposal of the dev table (P020 at 10, P023 at 12),
+// 2 = the table before P020/P023.
+var chainHeight uint64 = 20
 var debugSites bool
 
 // execute runs the input once under the decisions of ch and returns the observation
@@ -216,6 +226,9 @@ func execute(in Input, ch *fw.Chooser) (string, []string) {
 	warm := ch.Choose(2, "warm")
 	if warm != 0 {
 		devs = append(devs, "env:warm")
+	}
+	if in.Seam == "verifyblock" {
+		return executeVerifyBlock(in, ch, pt, warm, devs)
 	}
 	st := node.StateAt(baseRoot)
 	if warm == 1 {
@@ -280,9 +293,76 @@ func execute(in Input, ch *fw.Chooser) (string, []string) {
 	return string(j), devs
 }
 
+// executeVerifyBlock drives the whole-block path a validator runs: the header names the
+// transactions, the pool supplies them, BlockChain.VerifyBlock executes them on the parent
+// state and fills in state root, receipts root, evicted list and hash.
+func executeVerifyBlock(in Input, ch *fw.Chooser, pt, warm int, devs []string) (string, []string) {
+	chain := core.GetBlockChain()
+	pool := service.GetTransactionPool()
+	common.SetBlockHeight(0)
+	defer common.SetBlockHeight(chainHeight)
+	gen := chain.TopBlock()
+	gst := node.StateAt(gen.StateTree)
+	if warm == 1 {
+		o := node.StateAt(gen.StateTree)
+		wb := block([]TxSpec{{Kind: "transfer", Src: "B", Targets: [][2]string{{"F", "1"}}}}, o, 100)
+		wb.Header.Height = 1
+		core.VerifExecuteBlock(o, wb, "fullverify")
+	}
+	for _, r := range preTouch[pt] {
+		// the pre-touch happens on the shared latest-state object the node keeps
+		doRead(middleware.AccountDBManagerInstance.GetLatestStateDB(), r)
+	}
+	h := node.Header(gen, 1, 1, 5, time.Date(2024, 5, 1, 0, 0, 7, 0, time.UTC))
+	var ptxs []*types.Transaction
+	for i, sp := range in.Txs {
+		t := buildTx(sp, i+500, gst)
+		pool.AddTransaction(t)
+		ptxs = append(ptxs, t)
+		h.Transactions = append(h.Transactions, common.Hashes{t.Hash, t.SubHash})
+	}
+	h.TxTree = core.VerifCalcTxTree(ptxs) // the proposer's commitment to the list (checked before P020)
+	h.Hash = h.GenHash()
+	mapiter.Install(func(count int, B uint8) (uintptr, bool) {
+		site, own := iterSite()
+		if !own {
+			return 0, true
+		}
+		n := 8
+		if B > 0 {
+			n = (1 << B) * 8
+			if n > 32 {
+				n = 32
+			}
+		}
+		v := ch.Choose(n, "map")
+		if v != 0 {
+			devs = append(devs, "map:"+site)
+		}
+		if B > 2 {
+			nb := 1 << B
+			return mapiter.Start((v/8)*nb/4, v&7, B), true
+		}
+		return mapiter.Start(v>>3, v&7, B), true
+	})
+	miss, code := chain.VerifyBlock(h)
+	mapiter.Uninstall()
+	utility.VerifSetTimeOffset(0)
+	o := obsT{Root: h.StateTree.Hex(), RTree: h.ReceiptTree.Hex()}
+	for _, e := range h.EvictedTxs {
+		o.Evicted = append(o.Evicted, e.Hex())
+	}
+	for _, t := range h.Transactions {
+		o.Txs = append(o.Txs, t[0].Hex())
+	}
+	o.Receipts = []string{fmt.Sprintf("code=%d missing=%d hash=%s txtree=%s", code, len(miss), h.Hash.Hex(), h.TxTree.Hex())}
+	j, _ := json.Marshal(o)
+	return string(j), devs
+}
+
 func block(specs []TxSpec, st *account.AccountDB, salt int) *types.Block {
 	top := core.GetBlockChain().TopBlock()
-	h := node.Header(top, 3, 1, 5, time.Date(2024, 5, 1, 0, 0, salt, 0, time.UTC))
+	h := node.Header(top, chainHeight+1, 1, 5, time.Date(2024, 5, 1, 0, 0, salt, 0, time.UTC))
 	b := &types.Block{Header: h}
 	for i, s := range specs {
 		b.Transactions = append(b.Transactions, buildTx(s, i+salt*10, st))
@@ -406,6 +486,19 @@ func inputs(thorough bool) []Input {
 		}
 	}
 	rec(nil)
+	// whole-block seam: genesis parent (A holds 10^9), a reduced alphabet
+	vb := [][]TxSpec{
+		{{Kind: "transfer", Src: "A", Targets: [][2]string{{"B", "600000000"}, {"A", "700000000"}}}},
+		{{Kind: "transfer", Src: "A", Targets: [][2]string{{"B", "600000000"}, {"AUP", "700000000"}, {"F", "1"}}}},
+		{{Kind: "transfer", Src: "A", Targets: [][2]string{{"B", "1"}, {"F", "2"}}}, {Kind: "transfer", Src: "B", Targets: [][2]string{{"A", "5"}}}},
+		{{Kind: "create", Src: "A"}, {Kind: "apply", Src: "B"}},
+		{{Kind: "apply", Src: "B"}, {Kind: "add", Src: "B"}, {Kind: "refund", Src: "B"}},
+		{{Kind: "apply", Src: "B"}, {Kind: "change", Src: "B"}},
+		{{Kind: "ethcall", Src: "B"}, {Kind: "rawtransfer", Src: "A", Raw: "{bad json"}},
+	}
+	for _, txs := range vb {
+		ins = append(ins, Input{Name: "verifyblock", Seam: "verifyblock", Txs: txs})
+	}
 	return ins
 }
 
@@ -498,6 +591,9 @@ func outcomeClass(obs string) string {
 func mustJSON(v interface{}) string { b, _ := json.Marshal(v); return string(b) }
 
 func run(c *fw.Ctx) {
+	if c.Thorough() && c.Shard%2 == 1 {
+		chainHeight = 2 // half of the workers explore the pre-P020/P023 table (inputs are sharded over the other half again)
+	}
 	setup()
 	bound := 1
 	if c.Thorough() {
@@ -509,7 +605,12 @@ func run(c *fw.Ctx) {
 	var firstMine *Input
 	var firstObs string
 	for i, in := range ins {
-		if !c.Mine(int64(i)) {
+		if c.Thorough() {
+			// workers 2k and 2k+1 take the same inputs under the two fork tables
+			if (int64(i)+c.Seed)%int64((c.NShards+1)/2) != int64(c.Shard/2) {
+				continue
+			}
+		} else if !c.Mine(int64(i)) {
 			continue
 		}
 		if c.Expired() {
